@@ -73,7 +73,7 @@ class SeismicFileConverter(object):
 
     def get_blank_header_info(self, seismic, header_detection):
         first_il_header_val = seismic.header[0][segyio.tracefield.TraceField.INLINE_3D]
-        n_traces = seismic.tracecount if seismic.structured or first_il_header_val == 0 else 0
+        n_traces = seismic.tracecount if seismic.structured or first_il_header_val == 0 or self.is_2d else 0
         if type(self.geom) is Geometry3d:
             # Might be converting a window of the input file
             n_traces = len(self.geom.ilines) * len(self.geom.xlines)
@@ -168,6 +168,12 @@ class SeismicFileConverter(object):
 
     def infer_geometry(self, seismic):
         traces_ref = {(h[189], h[193]): i for i, h in enumerate(seismic.header)}
+        if len(set(k[0] for k in traces_ref)) == 1 or len(set(k[1] for k in traces_ref)) == 1:
+            # Every trace lies on one inline or one crossline: a 2D SEG-Y which segyio could not
+            # read as a regular line (e.g. because the offset header varies from trace to trace)
+            self.geom = Geometry2d(seismic.tracecount)
+            self.is_2d = True
+            return
         self.geom = InferredGeometry3d(traces_ref)
         print("... inferred geometry is:", self.geom)
 
